@@ -13,7 +13,7 @@ SPEC = {
     ],
     "classes": {1: "unsigned-above-i64-max", 2: "float-value-integer-bound", 3: "integer-value-float-bound",
                 4: "multiple-of-zero-value", 5: "multiple-of-zero-bound-panics"},
-    "n_quick": 1500, "n_thorough": 40000,
+    "n_quick": 1500, "n_thorough": 6000,
     "allowed_axioms": c.FLOCQ_AXIOMS,
     "level": "proof",
     "what_violation": "a validated argument reached the resolver without satisfying its validators, or was refused although it satisfies them",
